@@ -16,6 +16,7 @@ def run(ctx):
     res.rule("C06-R5", "fragments of another endpoint cannot enter: every table access is keyed by this frame's {device id, stream id} and the key "
                         "relation separates exactly the endpoints (C05-R1/R2)")
     res.not_decided += ["byte identity of everything delivered under every fault sequence; recovery as a liveness statement"]
+    D.rule_segtype_subject(res, "C06-R4", m)
     D.rule_accept_guard(res, "C06-R1", m)
     D.rule_modular_successor(res, "C06-R1", m)
     D.rule_reject_pure(res, "C06-R2", m)
